@@ -49,8 +49,24 @@ _HEAD = None
 MODEL0 = 9
 
 
-def cif_header():
+def cif_header(variant=0):
+    """variant 0: the header categories of a wwPDB entry (copied from
+    1FAS.cif); 1: none at all (files written by modelling programs carry
+    the coordinates only); 2: the wwPDB header with unknown-value markers in
+    items the structure does not depend on."""
     global _HEAD
+    if variant == 1:
+        return "data_VERIF\n#\n"
+    if variant == 2:
+        text = cif_header(0)
+        out = []
+        for line in text.splitlines():
+            w = line.split()
+            if len(w) == 2 and w[0] in ("_cell.Z_PDB", "_exptl.crystals_number",
+                                        "_symmetry.Int_Tables_number"):
+                line = f"{w[0]} ?"
+            out.append(line)
+        return "\n".join(out) + "\n"
     if _HEAD is None:
         text = (engine.REPO / "tests/data/1FAS.cif").read_text()
         sections = text.split("\n#")
@@ -107,7 +123,10 @@ def cif_text(models, layout=0):
             items.remove("pdbx_formal_charge")
     r = layout % len(items)
     order = items[r:] + items[:r]
-    lines = [cif_header(), "loop_"]
+    # header variant: wwPDB header for most files, none / unknown-value
+    # markers for layouts 3 and 7 (mod 8)
+    hv = {3: 1, 7: 2}.get(layout % 8, 0)
+    lines = [cif_header(hv), "loop_"]
     lines += [f"_atom_site.{i}" for i in order]
     serial = 1
     # loop order carries no meaning in mmCIF: multi-model entries are written
